@@ -274,6 +274,23 @@ def remove_node_table(meth_node):
     and `last` on every abstract graph.  Returns (wrong, unknown, n): wrong =
     list of (case, initial rows, final rows, expected rows).'''
     body = list(meth_node.body)
+    # the two position variables, whatever their names: the one looked up in
+    # self._nodes (get_index / index) and `len(self._nodes) - 1`
+    i_name = last_name = None
+    for stmt in body:
+        if isinstance(stmt, ast.Assign) and len(stmt.targets) == 1 and \
+                isinstance(stmt.targets[0], ast.Name):
+            val = stmt.value
+            if isinstance(val, ast.Call) and call_name(val) in (
+                    'get_index', 'index') and 'self._nodes' in txt(val):
+                i_name = i_name or stmt.targets[0].id
+            if isinstance(val, ast.BinOp) and isinstance(
+                    val.op, ast.Sub) and 'len(self._nodes)' in txt(
+                        val.left) and txt(val.right) == '1':
+                last_name = last_name or stmt.targets[0].id
+    if i_name is None or last_name is None:
+        return [], [('-', {}, 'position variables of remove_node not '
+                              'recognised')], 0
     # skip the docstring and the lookup of i / the early return / last
     stmts = []
     for stmt in body:
@@ -282,7 +299,7 @@ def remove_node_table(meth_node):
             continue
         if isinstance(stmt, ast.Assign) and len(stmt.targets) == 1 and \
                 isinstance(stmt.targets[0], ast.Name) and \
-                stmt.targets[0].id in ('i', 'last'):
+                stmt.targets[0].id in (i_name, last_name):
             continue
         if isinstance(stmt, ast.If) and 'is None' in txt(stmt.test) and \
                 any(isinstance(s, ast.Return) for s in stmt.body):
@@ -317,7 +334,7 @@ def remove_node_table(meth_node):
                 target = i_cls if cls_ == 'L' else cls_
                 want[target] = ren(row)
             interp = Interp(edges, i_cls, 'L')
-            interp.env = {'i': i_cls, 'last': 'L', 'node': 'node'}
+            interp.env = {i_name: i_cls, last_name: 'L', 'node': 'node'}
             try:
                 try:
                     interp.block(stmts)
